@@ -198,4 +198,18 @@ PROPS = {
                         "'tracked keys limited to those seen in the last four durations': only the per-call cleanup contract is proved; cleanup runs on admitted attempts only"],
         "assumptions": ["std HashMap::{entry, or_insert, retain, len} behave like the association-list model", "tokio Instant::now is monotone; both reads inside one call return the same instant"],
     },
+    "C19": {
+        "units": ["U10"],
+        "level": "proof",
+        "witness": [(r".", "grpc")],
+        "sweep": ["grpc"],
+        "explanation": "The three conversions of proto.rs (Target -> wire Target, wire Target -> Target, wire Address -> SocketAddr) are extracted and verified: "
+                       "the wire message carries the identifier and (canonical IP text, port); the way back yields Ok exactly for a present address whose host "
+                       "parses as an IP and whose port is <= 65535, with that identifier, IP and port; lemma_round_trip composes the two contracts: every "
+                       "IPv4 and IPv6 target comes back with the same identifier and socket address; missing address, bad host and port > 65535 are errors.",
+        "not_covered": ["metadata (HashMap <-> repeated MetaEntry through iterator adaptors: havoc, R17)",
+                        "the SelectRequest / StatusRequest assembly in strategy_adapter.rs / status_adapter.rs and the tonic transport",
+                        "that the prost-generated structs match adapter.proto (mirrored by hand in the prelude)"],
+        "assumptions": ["std: IpAddr::from_str(ip.to_string()) == Ok(ip); IpAddr::from_str / u16::try_from reject everything else as specified"],
+    },
 }
